@@ -132,6 +132,14 @@ func TestGvcBoundedCurve(t *testing.T) {
 	np1 := new(big.Int).Add(refN, big.NewInt(1))
 	scalars = append(scalars, []byte{}, []byte{0}, []byte{1}, []byte{2}, []byte{0, 0, 0, 5}, nm1.Bytes(), refN.Bytes(), np1.Bytes(), ff,
 		append([]byte{0}, ff...), append(make([]byte, 8), nm1.Bytes()...), append([]byte{1}, make([]byte, 32)...))
+	// structured scalars: long runs of zero digits (2^e, 2^e + 3, 2^e - 1)
+	for e := 0; e <= 256; e++ {
+		if os.Getenv("VERIF_TIER") != "thorough" && e%16 != 0 && (e < 124 || e > 132) && e < 250 {
+			continue
+		}
+		p2 := new(big.Int).Lsh(big.NewInt(1), uint(e))
+		scalars = append(scalars, p2.Bytes(), new(big.Int).Add(p2, big.NewInt(3)).Bytes(), new(big.Int).Sub(p2, big.NewInt(1)).Bytes())
+	}
 	for i := 0; i < rounds; i++ {
 		b := make([]byte, 1+rng.Intn(40))
 		rng.Read(b)
@@ -215,7 +223,7 @@ func TestGvcBoundedCurve(t *testing.T) {
 		check(new(big.Int).Rand(rng, refP), new(big.Int).Rand(rng, refP))
 	}
 	out, _ := json.Marshal(map[string]interface{}{"cases": cases, "failures": len(failing), "failing": failing,
-		"bound": fmt.Sprintf("fixed scalars (empty, 0, 1, 2, n-1, n, n+1, 2^256-1, leading zeros, 33..40 bytes) and %d random scalars of 1..40 bytes for ScalarBaseMult and ScalarMult; all pairs of 8 points (infinity, G, 6 random multiples) for Add, P+(-P), Double; IsOnCurve on curve points, off-curve neighbours, %d random coordinate pairs and two fixed pairs (seed %d)", rounds, rounds, seed)})
+		"bound": fmt.Sprintf("fixed scalars (empty, 0, 1, 2, n-1, n, n+1, 2^256-1, leading zeros, 33..40 bytes), 2^e / 2^e+3 / 2^e-1 for a set of exponents e in 0..256 (all of them in the thorough tier) and %d random scalars of 1..40 bytes for ScalarBaseMult and ScalarMult; all pairs of 8 points (infinity, G, 6 random multiples) for Add, P+(-P), Double; IsOnCurve on curve points, off-curve neighbours, %d random coordinate pairs and two fixed pairs (seed %d)", rounds, rounds, seed)})
 	fmt.Println("GVCBOUNDED " + string(out))
 	if len(failing) > 0 {
 		t.Fail()
